@@ -88,6 +88,11 @@ def gen_program(rng, cyclic=True, negation=True, ads=True, evidence=True, max_le
                 args = tuple((rng.choice(VARS) if rng.random() < 0.9 else rng.choice(consts)) for _ in range(preds[p][0]))
                 bound.update(x for x in args if x in VARSET)
                 body.append(("pos", (p, args)))
+        if negation and body and rng.random() < 0.08:
+            # contradictory body (f(X), \+f(X)): proofs that the ground formula simplifies to FALSE
+            t0, a0 = rng.choice(body)
+            if t0 == "pos" and preds[a0[0]][1] < hl:    # keep predicate-level stratification
+                body.append(("neg", a0))
         for x in [x for x in hargs if x in VARSET and x not in bound]:
             cs = [p for p in base if preds[p][0] >= 1]
             if not cs:
